@@ -313,6 +313,16 @@ func (r *Replica) CheckTx(tx []byte, recheck bool) (res abci.ResponseCheckTx, pi
 	return
 }
 
+// SimulateGas is Simulate that also reports the gas the transaction used.
+func (r *Replica) SimulateGas(tx []byte) (ok bool, gas uint64, pi *PanicInfo) {
+	pi = r.guarded("Simulate", func() {
+		gi, _, err := r.App.Simulate(tx)
+		ok = err == nil
+		gas = gi.GasUsed
+	})
+	return
+}
+
 func (r *Replica) Simulate(tx []byte) (ok bool, log string, pi *PanicInfo) {
 	pi = r.guarded("Simulate", func() {
 		_, _, err := r.App.Simulate(tx)
